@@ -200,14 +200,32 @@ def open_files_facts(tree):
         raise NotRecognised("open_files: path = readlink(file)")
     link_gone = _guard_classes(rl[0], par, loop)
     # path.startswith('/') ... isfile_strict(path)
-    sw = [n for n in ast.walk(loop) if isinstance(n, ast.Call) and extract.dotted(n.func) == "path.startswith"]
     isf = [n for n in ast.walk(loop) if isinstance(n, ast.Call) and extract.dotted(n.func) == "isfile_strict"]
-    if len(sw) != 1 or len(isf) != 1:
-        raise NotRecognised("open_files: `path.startswith('/') and isfile_strict(path)`")
-    bo = par.get(sw[0])
-    if not (isinstance(bo, ast.BoolOp) and isinstance(bo.op, ast.And) and bo.values[0] is sw[0] and bo.values[1] is isf[0]):
-        raise NotRecognised("open_files: startswith/isfile_strict are not `a and b`")
-    prefix = _text(sw[0].args[0])
+    if len(isf) != 1:
+        raise NotRecognised("open_files: one isfile_strict(path) call expected")
+    bo = par.get(isf[0])
+    if not (isinstance(bo, ast.BoolOp) and isinstance(bo.op, ast.And)):
+        raise NotRecognised("open_files: isfile_strict(path) is not a conjunct of an `and`")
+    # `if a and b: <block>` or `if not (a and b): continue`
+    holder = par.get(bo)
+    if isinstance(holder, ast.If) and holder.test is bo:
+        shape_ok = not holder.orelse
+    elif isinstance(holder, ast.UnaryOp) and isinstance(holder.op, ast.Not) and isinstance(par.get(holder), ast.If) \
+            and par[holder].test is holder:
+        shape_ok = (len(par[holder].body) == 1 and isinstance(par[holder].body[0], ast.Continue)
+                    and not par[holder].orelse)
+    else:
+        shape_ok = False
+    first = bo.values[0]
+    if not (isinstance(first, ast.Call) and extract.dotted(first.func) == "path.startswith" and len(first.args) == 1):
+        raise NotRecognised("open_files: first conjunct is not path.startswith(...)")
+    prefix = _text(first.args[0])
+    # the filter is EXACTLY `path.startswith(<prefix>) and isfile_strict(path)`: no further clause (on the
+    # name, on a prefix, …) decides whether a descriptor is listed, and no other test of `path` in the loop
+    sw = [n for n in ast.walk(loop) if isinstance(n, ast.Call) and isinstance(n.func, ast.Attribute)
+          and extract.dotted(n.func.value) == "path"]
+    filter_exact = (len(bo.values) == 2 and bo.values[1] is isf[0] and len(sw) == 1 and sw[0] is first
+                    and [ast.unparse(a) for a in isf[0].args] == ["path"] and shape_ok)
     # open_binary(file) and the two reads
     ob = [n for n in ast.walk(loop) if isinstance(n, ast.Call) and extract.dotted(n.func) == "open_binary"]
     if len(ob) != 1:
@@ -241,7 +259,7 @@ def open_files_facts(tree):
             final = True
     return {"link_gone": link_gone, "info_gone": info_gone, "read_gone": read_gone, "prefix": prefix,
             "pos": (pos_idx, pos_base), "flags": (fl_idx, fl_base), "final": final,
-            "link_denied_raises": _link_denied_raises(rl[0], par, loop)}
+            "link_denied_raises": _link_denied_raises(rl[0], par, loop), "filter_exact": filter_exact}
 
 
 DENIED_ERRNOS = ("EACCES", "EPERM")
@@ -443,6 +461,8 @@ def facts(snap, F):
     F.try_add("delSuffix", "List Nat", lambda: lean_bytes(r()["suffix"]), "the ' (deleted)' literal of readlink()")
     F.try_add("delCut", "Nat", lambda: lean_nat(r()["cut"]), "N of path[:-N] in readlink()")
     F.try_add("absPrefix", "List Nat", lambda: lean_bytes(o()["prefix"]), "argument of path.startswith() in open_files")
+    F.try_add("filterExact", "Bool", lambda: lean_bool(o()["filter_exact"]),
+              "the listing filter is exactly `path.startswith(prefix) and isfile_strict(path)`: no other clause about the path")
     F.try_add("linkGoneEnoent", "Bool", lambda: has(o()["link_gone"], "FileNotFoundError"),
               "ENOENT from readlink sets hit_enoent and continues")
     F.try_add("linkGoneEsrch", "Bool", lambda: has(o()["link_gone"], "ProcessLookupError"),
